@@ -44,6 +44,7 @@ class Cfg:
     debug_leaf: bool = False  # one leaf may be a debug node, RUN_DEBUG_NODES on; the executed set is read off the executor's graph
     monitors: Tuple[str, ...] = ("C02", "C03", "C04", "C05", "C08", "C09", "C14", "C17", "C01")
     known_c08: bool = True
+    twin: bool = False  # reachability twin: the harness ends with check(False), which must come back violated
 
 
 class Monitor:
@@ -635,6 +636,8 @@ def run_sched(cfg: Cfg, c: Ctx) -> Any:
         c.cover("w_parallel")
     if getattr(world, "control", None) is not None:
         raise world.control  # a violation found by a monitor running on a worker thread
+    if cfg.twin:
+        c.check(False, "reachability twin: the end of the harness is reachable", prop="TWIN")
     return {"deps": alldeps, "res": res, "sel": sel, "flavour": flavour, "route": route, "trace": list(world.trace), "outcome": outcome[0],
             "choices": {k: list(v) for k, v in c.choices.items()}}
 
